@@ -86,6 +86,9 @@ func newSeqEnv(mode, scratch string) (*seqEnv, error) {
 		if err := e.colls[c].PutDDoc(context.Background(), "ld", viewDDoc()); err != nil {
 			return nil, err
 		}
+		if err := e.colls[c].PutDDoc(context.Background(), "pd", viewDDoc()); err != nil {
+			return nil, err
+		}
 	}
 	e.kfeeds = map[string]*feedBuf{}
 	for _, c := range collNames {
@@ -296,7 +299,7 @@ func (sr *seqRunner) runPath(trNo int, ops []GenOp) error {
 			// (before the feeds are flushed: the flush markers are writes of their own, and a view that has just been
 			// brought up to date over a marker no longer shows what it made of the operation itself)
 			// SQL queries and views of the target collection (a freshly built view at the end of the path)
-			for _, ao := range sr.observeAux(x, op.Coll, suffix, i == len(ops)-1, i%3 == 2 || i == len(ops)-1) {
+			for _, ao := range sr.observeAux(x, op.Coll, suffix) {
 				js, _ := jsonNoRank(ao)
 				if prev, ok := prevAux[ao.C+"/"+ao.Kind]; !ok || prev != js || ao.Kind == "viewfresh" || ao.Kind == "viewlate" {
 					prevAux[ao.C+"/"+ao.Kind] = js
@@ -310,6 +313,10 @@ func (sr *seqRunner) runPath(trNo int, ops []GenOp) error {
 			return fmt.Errorf("trace %d step %d (%s): %w", trNo, i+1, op.Op, err)
 		}
 		step.Live = lives
+		if sr.aux {
+			// views queried after the flush (always recorded: the trace spec checks them where they appear)
+			step.Aux = append(step.Aux, sr.observePost(x, op.Coll, suffix, i == len(ops)-1, i%3 == 2 || i == len(ops)-1)...)
+		}
 		step.Mlive = sr.lastMulti
 		step.Klive = sr.lastKeys
 		// projection of every path key in every collection
